@@ -184,6 +184,10 @@ ConcatC(e, pre, post, regs, want) ==
      \o (IF e.tag = "probe_closed"
          THEN Cl("C04.closed", HasStyle(pre[regs[1]]), StyIsOn(w, segs, pre, n1 + 1, total))
          ELSE None)
+     \o (IF e.tag = "probe_cut_closed"     \* the left operand is the result of cutting a tail off (clip/slice/strip/removesuffix/assign_str)
+         THEN Cl("C04.closed", HasStyle(pre[regs[1]]), StyIsOn(w, segs, pre, n1 + 1, total))
+           \o Cl("C11.closed", HasStyle(pre[regs[1]]), StyIsOn(w, segs, pre, n1 + 1, total))
+         ELSE None)
      \o (IF e.tag = "probe_pad_closed"
          THEN Cl("C12.closed", HasStyle(pre[regs[1]]), StyIsOn(w, segs, pre, n1 + 1, total))
          ELSE None)
